@@ -1,1 +1,297 @@
-/-! Property theorems for C17 (none yet). -/
+/-
+C17 — All memory goes through the user's allocators and is released at finish.
+
+Property theorems only.  Models: Model/Alloc.lean (ledger = executable statement of the allocator
+contract, run natively by `mirdrv_c17` over the event trace of the real library),
+Model/VarrAlloc.lean (mir-varr.h), Model/AllocCode.lean (mir.c code holders); the inventory
+`Gen/C17_Sites.lean` is regenerated from the C sources on every run.
+
+What is proved (for every lawful live-map `M`, every page size, address, length, history):
+  * `varr_trace_ok`           every admissible history of VARR operations on any number of arrays,
+                              interleaved with other allocator traffic, is accepted by the ledger;
+  * `accepted_realloc_reports_true_size`   acceptance of a trace *means* every `realloc` reported
+                              the block's current size; together with
+  * `realloc_sites_in_varr`   (inventory) `MIR_realloc` is called from mir-varr.h expand/tailor only,
+                              this is the realloc contract for every API history;
+  * `protect_bracket`, `change_code_range`, `update_code_range`, `code_trace_ok`,
+    `code_finish_unmaps`      code memory is written only inside a W…X window that covers the
+                              written bytes, lies in the mapped holder and is closed again; every
+                              holder is unmapped by `code_finish`;
+  * `code_sites_in_code_page` (inventory) mem_map / mem_unmap / mem_protect have exactly those callers;
+  * `raw_alloc_free_partial`  (inventory) no direct libc allocator use outside the listed known sites.
+What is NOT proved: that the rest of the library (everything that is not VARR / code holders) frees
+what it allocates — that is monitored on generated API histories by checks/c17.py, not proved.
+-/
+import MirVerif.Lemmas.AllocVarr
+import MirVerif.Lemmas.AllocCode
+import MirVerif.Gen.C17_Sites
+
+namespace MirVerif.Props.C17
+open MirVerif.Alloc MirVerif.VarrAlloc MirVerif.AllocCode
+
+variable {M : Type} [LiveMap M]
+
+/-! ## 1. what acceptance by the ledger means -/
+
+/-- An accepted trace reports the true size at every `realloc`: wherever `realloc ptr old new ret`
+(ptr ≠ NULL) occurs in a trace the ledger accepts, the block `ptr` is live with size `old` in the
+ledger state reached by the events before it. -/
+theorem accepted_realloc_reports_true_size {L L' : Ledger M} {pre post : List Ev} {ptr old new ret : Nat}
+    (h : run L (pre ++ Ev.realloc ptr old new ret :: post) = .ok L') (hp : ptr ≠ 0) :
+    ∃ Lm, run L pre = .ok Lm ∧ LiveMap.get? Lm.live ptr = some old := by
+  rw [run_append] at h
+  cases hpre : run L pre with
+  | error v => simp [hpre] at h
+  | ok Lm =>
+    simp only [hpre, run] at h
+    cases hs : step Lm (Ev.realloc ptr old new ret) with
+    | error v => simp [hs] at h
+    | ok L2 => exact ⟨Lm, rfl, step_realloc_ok hs hp⟩
+
+example : verdict (run (Ledger.init 4096 : Ledger AList)
+    [Ev.malloc 16 1000, Ev.realloc 1000 16 32 2000, Ev.free 2000]) = none := by decide
+
+/-- An accepted `free` names a live block (no double free, no foreign pointer); NULL is a no-op. -/
+theorem accepted_free_is_live [LawfulLiveMap M] {L L' : Ledger M} {ptr : Nat} (h : step L (.free ptr) = .ok L')
+    (hp : ptr ≠ 0) : (∃ sz, LiveMap.get? L.live ptr = some sz) ∧ LiveMap.get? L'.live ptr = none := by
+  simp only [step, hp, ↓reduceIte] at h
+  cases hg : LiveMap.get? L.live ptr with
+  | none => simp [hg] at h
+  | some sz =>
+    simp only [hg, Except.ok.injEq] at h
+    refine ⟨⟨sz, rfl⟩, ?_⟩
+    rw [← h]
+    simp [LawfulLiveMap.get?_erase]
+
+example : verdict (step (Ledger.init 4096 : Ledger AList) (.free 1000)) = some (.freeNotLive 1000) := by decide
+
+/-- An accepted write touches only write-enabled pages: every byte of `[ptr, ptr+len)` is on a page
+for which write access was requested and execute access not yet requested again. -/
+theorem accepted_write_in_window {L L' : Ledger M} {ptr len b : Nat}
+    (h : step L (.write ptr len) = .ok L') (h1 : ptr ≤ b) (h2 : b < ptr + len) : b / L.ps ∈ L.wr := by
+  simp only [step] at h
+  split at h
+  · rename_i hall
+    rw [List.all_eq_true] at hall
+    have : b / L.ps ∈ pagesOf L.ps ptr len := by
+      rw [mem_pagesOf]
+      exact ⟨by omega, Nat.div_le_div_right h1, Nat.div_le_div_right (by omega)⟩
+    simpa using hall _ this
+  · simp at h
+
+example : verdict (step ({ (Ledger.init 4096 : Ledger AList) with maps := [(8192, 4096)] }) (.write 8200 4))
+    = some (.writeOutsideWindow 8200 4) := by decide
+
+/-- Accepting `fin` means: no block live, no region mapped, no write window open. -/
+theorem accepted_fin_all_returned [LawfulLiveMap M] {L L' : Ledger M} (h : step L .fin = .ok L') :
+    (∀ a, LiveMap.get? L.live a = none) ∧ L.maps = [] ∧ L.wr = [] := by
+  cases hw : L.wr with
+  | cons p ps => simp [step, hw] at h
+  | nil =>
+    cases hm : L.maps with
+    | cons r rs => simp [step, hw, hm] at h
+    | nil =>
+      cases he : LiveMap.isEmpty L.live with
+      | false => simp [step, hw, hm, he] at h
+      | true => exact ⟨(LawfulLiveMap.isEmpty_iff L.live).mp he, rfl, rfl⟩
+
+example : accepts (M := AList) 4096 [.malloc 8 1000, .map 4096 8192, .protect 8192 4096 .writeExec,
+    .write 8200 16, .protect 8192 4096 .readExec, .quiesce, .free 1000, .unmap 8192 4096] = true := by decide
+example : accepts (M := AList) 4096 [.malloc 8 1000] = false := by decide
+
+/-- The native monitor (`mirdrv_c17 ledger`, which updates its hash map in place) reports exactly the
+verdicts of `step`: an accepted event gives `step`'s ledger, a rejected one `step`'s violation. -/
+theorem monitor_reports_step_verdicts [LawfulLiveMap M] (L : Ledger M) (e : Ev) :
+    stepLenient L e = match step L e with
+      | .ok L' => (L', none)
+      | .error v => (recover L e, some v) :=
+  stepLenient_spec L e
+
+example : (stepLenient (Ledger.init 4096 : Ledger AList) (.free 7)).2 = some (.freeNotLive 7) := by decide
+
+/-! ## 2. mir-varr.h -/
+
+/-- **varr_trace_ok.**  Start from any ledger `L` and system `S` of arrays satisfying the
+invariant (`ledger[va.varr] = sizeof (T) * va.size`, `ledger[va] = sizeof (VARR (T))`, arrays
+pairwise disjoint) — in particular from the empty ledger.  Every history of
+create / expand / tailor / push / push_arr / pop / trunc / destroy on any arrays, interleaved with
+arbitrary other malloc/free traffic, in which the allocator answers admissibly (non-NULL, not a live
+block; realloc may return the old address) and the `VARR_ASSERT` preconditions hold, produces an
+event trace the ledger accepts, and the invariant holds again afterwards. -/
+theorem varr_trace_ok [LawfulLiveMap M] {L : Ledger M} {S : Sys} (ops : List SysOp) (hs : SysOk L S)
+    (hv : SysValid L S ops) :
+    ∃ L', run L (sysTrace S ops) = .ok L' ∧ SysOk L' (sysFinal S ops) :=
+  sys_trace_ok ops hs hv
+
+/-- the invariant holds in the initial state (no arrays, empty ledger) -/
+theorem varr_init_ok (ps : Nat) : SysOk (Ledger.init ps : Ledger M) [] :=
+  ⟨fun _ _ h => by simp [List.lookup] at h, fun _ _ _ _ _ h => by simp [List.lookup] at h⟩
+
+/-- in particular: every `realloc` issued by a VARR history reports the block's current size -/
+theorem varr_realloc_old_size [LawfulLiveMap M] {L : Ledger M} {S : Sys} (ops : List SysOp) (hs : SysOk L S)
+    (hv : SysValid L S ops) {pre post : List Ev} {ptr old new ret : Nat}
+    (he : sysTrace S ops = pre ++ Ev.realloc ptr old new ret :: post) (hp : ptr ≠ 0) :
+    ∃ Lm, run L pre = .ok Lm ∧ LiveMap.get? Lm.live ptr = some old := by
+  obtain ⟨L', r, _⟩ := varr_trace_ok ops hs hv
+  rw [he] at r
+  exact accepted_realloc_reports_true_size r hp
+
+/-- `VARR_DESTROY` returns both blocks of the array and touches nothing else -/
+theorem varr_destroy_releases [LawfulLiveMap M] {L : Ledger M} {va : Varr} (hv : VarrOk L va) :
+    ∃ L', run L (destroy va) = .ok L' ∧ lget L' va.hdr = none ∧ lget L' va.data = none
+      ∧ ∀ a, a ≠ va.data → a ≠ va.hdr → lget L' a = lget L a := by
+  obtain ⟨L', r, h1, h2, fr⟩ := destroy_ok hv
+  exact ⟨L', r, h1, h2, fr.same⟩
+
+/-- non-vacuity: a concrete history (growth by realloc to a new address, realloc in place by
+tailor, a second array, foreign traffic, destroy) is admissible from the empty ledger; its trace
+has 9 events, 2 of them reallocs, and leaves nothing live -/
+def demoOps : List SysOp :=
+  [.create 1 8 2 1000 2000, .op 1 (.push 2000), .op 1 (.push 2000), .op 1 (.push 3000),
+   .otherMalloc 80 5000, .create 2 1 0 6000 7000, .op 1 (.tailor 3 3000), .op 1 .pop,
+   .op 2 (.pushArr 100 7500), .otherFree 5000, .destroy 1, .destroy 2]
+
+example : sysTrace [] demoOps =
+    [.malloc 32 1000, .malloc 16 2000, .realloc 2000 16 32 3000, .malloc 80 5000, .malloc 32 6000,
+     .malloc 64 7000, .realloc 3000 32 24 3000, .realloc 7000 64 150 7500, .free 5000,
+     .free 3000, .free 1000, .free 7500, .free 6000] := by decide
+
+example : SysValid (Ledger.init 4096 : Ledger AList) [] demoOps := sysValidB_sound (by decide)
+
+example : accepts (M := AList) 4096 (sysTrace [] demoOps) = true := by decide
+
+/-- the mutant "expand reports the NEW size" is rejected by the ledger (the monitor is not vacuous) -/
+example : verdict (run (Ledger.init 4096 : Ledger AList) [.malloc 32 1000, .malloc 16 2000, .realloc 2000 32 32 3000])
+    = some (.reallocOldSize 2000 32 16) := by decide
+
+/-! ## 3. code pages -/
+
+/-- **protect_bracket.**  `_MIR_set_code (prot_start, prot_len, writes)`: if the range is page
+aligned, lies inside a mapped page-aligned region and covers the written bytes, then the W request,
+all writes and the X request are accepted — i.e. every written byte lies on a page between *its own*
+write request and the following execute request — and afterwards no window is open and blocks and
+regions are untouched. -/
+theorem protect_bracket {L : Ledger M} {s l start len : Nat} (writes : List (Nat × Nat))
+    (hps : 0 < L.ps) (hwr : L.wr = [])
+    (hr : (s, l) ∈ L.maps) (hs : s % L.ps = 0) (hl : l % L.ps = 0)
+    (ha : start % L.ps = 0) (h1 : s ≤ start) (h2 : start + len ≤ s + l)
+    (hw : ∀ x ∈ writes, start ≤ x.1 ∧ x.1 + x.2 ≤ start + len) :
+    ∃ L', run L (setCode start len writes) = .ok L'
+      ∧ L'.wr = [] ∧ L'.maps = L.maps ∧ L'.live = L.live := by
+  obtain ⟨L', r, s⟩ := setCode_ok writes hps hwr hr hs hl ha h1 h2 hw
+  exact ⟨L', r, s.wr, s.maps, s.live⟩
+
+/-- the shape of what `_MIR_set_code` emits: W first, X last, only writes in between -/
+theorem set_code_shape (start len : Nat) (writes : List (Nat × Nat)) :
+    setCode start len writes = Ev.protect start len .writeExec ::
+      (writes.map (fun x => Ev.write x.1 x.2) ++ [Ev.protect start len .readExec]) := rfl
+
+/-- `_MIR_change_code`'s range arithmetic, all page sizes, addresses and lengths: the start is page
+aligned, not above `addr`, and the range ends exactly at `addr + code_len`. -/
+theorem change_code_range (ps addr codeLen : Nat) :
+    (changeRange ps addr codeLen).1 % ps = 0 ∧ (changeRange ps addr codeLen).1 ≤ addr
+      ∧ addr + codeLen = (changeRange ps addr codeLen).1 + (changeRange ps addr codeLen).2 :=
+  changeRange_covers ps addr codeLen
+
+/-- `_MIR_update_code_arr`'s range: aligned, and every pointer-sized store `base + off_i` is inside. -/
+theorem update_code_range (ps base : Nat) (offs : List Nat) :
+    (updateRange ps base offs).1 % ps = 0 ∧
+    ∀ o ∈ offs, (updateRange ps base offs).1 ≤ base + o
+      ∧ base + o + ptrSize ≤ (updateRange ps base offs).1 + (updateRange ps base offs).2 := by
+  obtain ⟨h1, _, _, h4⟩ := updateRange_covers ps base offs
+  exact ⟨h1, h4⟩
+
+/- `code_len = 0` is outside the contract of `_MIR_change_code`/`add_code`: `_MIR_set_code` reads
+`reloc_size == 0` as "pointer-sized relocations" and stores 8 bytes although the protected range is
+empty.  No caller in the library passes 0 (all lengths are positive constants or generated-code
+sizes); the theorems below therefore assume `0 < codeLen`. -/
+example : changeCode 4096 8192 0 = [.protect 8192 0 .writeExec, .write 8192 8, .protect 8192 0 .readExec] := by
+  decide
+example : verdict (run ({ (Ledger.init 4096 : Ledger AList) with maps := [(8192, 4096)] })
+    (changeCode 4096 8192 0)) = some (.writeOutsideWindow 8192 8) := by decide
+
+example : changeRange 4096 12345 10 = (12288, 67) := by decide
+example : updateRange 4096 12345 [3, 100, 7] = (12288, 165) := by decide
+
+/-- **code_trace_ok.**  Every history of publish / publish_by_addr / get_new_code_addr /
+change_code / update_code in which `mem_map` answers admissibly and patched code lies inside a holder
+is accepted by the ledger (no write outside a window, every window closed, every protect request
+aligned and inside a mapped region); general-purpose blocks are not touched. -/
+theorem code_trace_ok {L : Ledger M} {C : CodeCtx} (ops : List CodeOp) (h : CodeOk L C)
+    (hv : CodeHistValid L C ops) :
+    ∃ L', run L (codeTrace C ops) = .ok L' ∧ CodeOk L' (codeFinal C ops) ∧ L'.live = L.live :=
+  code_hist_ok ops h hv
+
+/-- `code_init` state satisfies the invariant -/
+theorem code_init_ok (ps : Nat) (h : 0 < ps) (h16 : ps % 16 = 0) :
+    CodeOk (Ledger.init ps : Ledger M) { ps := ps, holders := [] } :=
+  ⟨h, h16, rfl, rfl, rfl, fun _ hx => by simp at hx⟩
+
+/-- **code_finish_unmaps.**  `code_finish` returns every mapped region. -/
+theorem code_finish_unmaps {L : Ledger M} {C : CodeCtx} (h : CodeOk L C) :
+    ∃ L', run L (codeFinish C) = .ok L' ∧ L'.maps = [] ∧ L'.wr = [] ∧ L'.live = L.live :=
+  codeFinish_ok h
+
+def demoCode : List CodeOp :=
+  [.publish 100 8192, .publish 5000 16384, .change 16400 5, .update 16384 [8, 64, 16],
+   .getNewAddr 10 0x100000, .publishByAddr 21392 10 0x100000, .publish 9000 0x200000]
+
+example : CodeHistValid (Ledger.init 4096 : Ledger AList) { ps := 4096, holders := [] } demoCode :=
+  codeHistValidB_sound (by decide)
+
+example : accepts (M := AList) 4096
+    (codeTrace { ps := 4096, holders := [] } demoCode
+      ++ codeFinish (codeFinal { ps := 4096, holders := [] } demoCode)) = true := by decide
+
+/-- the mutant "`_MIR_set_code` forgets the final PROT_READ_EXEC" is rejected at the next API boundary -/
+example : verdict (run ({ (Ledger.init 4096 : Ledger AList) with maps := [(8192, 4096)] })
+    [.protect 8192 4096 .writeExec, .write 8200 8, .quiesce]) = some (.windowLeftOpen 2) := by decide
+
+/-! ## 4. inventory obligations (regenerated from the C sources on every run) -/
+
+open MirVerif.Gen.C17 in
+/-- `MIR_realloc` is called from `VARR_EXPAND` and `VARR_TAILOR` and nowhere else in the library. -/
+theorem realloc_sites_in_varr :
+    ∀ s ∈ reallocSites, s.file = "mir-varr.h" ∧ (s.func = "DEF_VARR:expand" ∨ s.func = "DEF_VARR:tailor") := by
+  decide
+
+open MirVerif.Gen.C17 in
+/-- the code allocator has exactly the callers modelled in Model/AllocCode.lean -/
+theorem code_sites_in_code_page :
+    (∀ s ∈ memMapSites, s.file = "mir.c" ∧ s.func = "get_last_code_holder")
+    ∧ (∀ s ∈ memUnmapSites, s.file = "mir.c" ∧ s.func = "code_finish")
+    ∧ (∀ s ∈ memProtectSites, s.file = "mir.c" ∧ s.func = "_MIR_set_code") := by
+  decide
+
+example : MirVerif.Gen.C17.reallocSites.length = 2 ∧ MirVerif.Gen.C17.memProtectSites.length = 2
+    ∧ 30 ≤ MirVerif.Gen.C17.nMallocSites ∧ 50 ≤ MirVerif.Gen.C17.nFreeSites := by decide
+
+/-- direct uses of the libc allocator in the library that are recorded as known findings
+(DESIGN §6 #14); keyed by file, enclosing function and callee — not by line.  The candidate repair
+`fixes/C17-c2mir-raw-alloc.patch` removes all of them. -/
+def knownRawSites : List (String × String × String) :=
+  [("c2mir/c2mir.c", "c2mir_finish", "free"), ("c2mir/c2mir.c", "free_stream", "free"),
+   ("c2mir/c2mir.c", "new_macro", "malloc"), ("c2mir/c2mir.c", "finish_macros", "free"),
+   ("c2mir/c2mir.c", "new_macro_call", "malloc"), ("c2mir/c2mir.c", "free_macro_call", "free"),
+   ("c2mir/c2mir.c", "new_ifstate", "malloc"), ("c2mir/c2mir.c", "pop_ifstate", "free"),
+   ("c2mir/c2mir.c", "pre_finish", "free"), ("c2mir/c2mir.c", "parse_finish", "free"),
+   ("c2mir/c2mir.c", "context_finish", "free"), ("c2mir/c2mir.c", "gen_finish", "free")]
+
+/- The full statement
+     raw_alloc_free : MirVerif.Gen.C17.rawAllocSites = []
+   is FALSE on the current sources: c2mir.c releases blocks obtained with `MIR_calloc`/`MIR_malloc`
+   through libc `free` (c2mir_finish, free_stream, pre_finish, parse_finish, context_finish,
+   gen_finish) and allocates macros, macro calls and #if states with libc `malloc`
+   (new_macro, new_macro_call, new_ifstate; freed in finish_macros, free_macro_call, pop_ifstate).
+   checks/c17.py replays each of them on the real code (libc interposition in the harness) and
+   reports them under the signatures "C17:raw-<callee>:c2mir.c:<function>". -/
+
+open MirVerif.Gen.C17 in
+/-- **raw_alloc_free_partial.**  Apart from the listed known sites the library sources contain no
+direct `malloc/calloc/realloc/free/mmap/munmap/mprotect/…` (call or reference) outside the two
+`*-default.c` files. -/
+theorem raw_alloc_free_partial :
+    rawAllocSites.filter (fun s => !(knownRawSites.contains (s.file, s.func, s.callee))) = [] := by
+  decide
+
+end MirVerif.Props.C17
